@@ -128,6 +128,20 @@ class Engine:
             return "dup"
         rec = ProbeRec(op)
         env = self.sel_env()
+        try:
+            for sl in op["sels"]:
+                for lv in sl["levels"]:
+                    if lv.get("ref"):
+                        # select through the absolute reference string of that very function
+                        f = self.sim.raw_function(self.sim.v["sys"], lv["fn"])
+                        lv["recv_path"] = ptera.refstring(f)
+                        self.sim.reach("probe_by_reference")
+        except Exception as e:
+            self.violate("C14.resolves", {"op": "refstring", "fn": lv["fn"], "error": canon(e)})
+            rec.dead = True
+            rec.strs = []
+            self.probes[op["id"]] = rec
+            return "refstring-failed"
         strs = [msel.render(s, style=op.get("style", 0)) for s in op["sels"]]
         rec.strs = strs
         kind = op.get("kind", "probe")
@@ -736,6 +750,35 @@ class Engine:
     def after_op(self, op, res):
         if self.sc.get("lifecycle", True):
             self.check_lifecycle(op)
+        if self.sc.get("check_refs"):
+            self.check_refs(op)
+
+    def check_refs(self, op):
+        """C14.resolves: every function's reference string resolves to that very
+        function, at every point of the history."""
+        import ptera
+        from ptera.selector import select
+
+        sysv = self.sim.v["sys"]
+        for q, fnir in self.sim.funcs:
+            f = self.sim.raw_function(sysv, q)
+            try:
+                ref = ptera.refstring(f)
+                got = select(ref + " > #value", env={}).element.name
+                ok = got is f
+                err = None if ok else f"resolved to {getattr(got, '__qualname__', got)!r}"
+            except Exception as e:
+                ok, err = False, canon(e)
+            mode = SEAMS["clock"].mode
+            self.sim.reach(f"resolve_{mode}")
+            if self.order:
+                self.sim.reach(f"resolve_while_probe_active_{mode}")
+            if not ok:
+                self.violate(
+                    "C14.resolves",
+                    {"fn": q, "after": op.get("op"), "clock": mode, "active": self.active_sig(), "error": err},
+                )
+                return
 
     def model_counts(self):
         want = {}
